@@ -84,8 +84,7 @@ class ComputeOks(Contract):
     dims = ("G", "P")
     dim_ranges = {"G": (1, 2), "P": (1, 3)}
     rand_ranges = {"G": (1, 3), "P": (1, 4), "stddev": (0.02, 0.2), "scale": (1.0, 50.0)}
-    not_decided = ("OKS never increases when a predicted keypoint moves farther from its target (monotonicity lemma not written yet)",
-                   "invariance under a common translation (evident from the closed form: only differences of coordinates and the bounding-box extent occur; no obligation generated)",
+    not_decided = ("invariance under a common translation (evident from the closed form: only differences of coordinates and the bounding-box extent occur; an obligation over the shifted closed form was tried and did not discharge within the budget, so none is generated)",
                    "match_instances / greedy_matching / compute_iou / compute_cosine_sim are not under contract yet")
     bounded = ("the node axis is unrolled: 1..2 nodes (quick), 1..4 (thorough); instances, coordinates, NaN patterns, stddev and scale are unbounded",)
 
@@ -99,7 +98,8 @@ class ComputeOks(Contract):
         d = dict(points_gt=c.tensor("points_gt", [G, N, 2], FLOAT, nan_ok=True, kind="numpy"),
                  points_pr=c.tensor("points_pr", [P, N, 2], FLOAT, nan_ok=True, kind="numpy"),
                  scale=(c.real("scale") if has_scale else None), stddev=c.real("stddev"), use_cocoeval=coco)
-        c.g = dict(t=(c.real("ghost_tx"), c.real("ghost_ty")), far=c.real("ghost_far"), node=c.int("ghost_node"))
+        c.g = dict(t=(c.real("ghost_tx"), c.real("ghost_ty")), far=c.real("ghost_far"), node=c.int("ghost_node"),
+                   q=(c.real("ghost_qx"), c.real("ghost_qy")))
         return d
 
     def requires(self, c, points_gt, points_pr, scale=None, stddev=0.025, use_cocoeval=True):
@@ -138,13 +138,16 @@ class ComputeOks(Contract):
 
         R = lambda x: V.finite_real(V.sfloat(x).val) if V.is_symbolic(x) else x
 
-        def pieces(g, p):
+        def pieces(g, p, override=None, info=None):
             """The per-node terms of the closed form, with the arithmetic lemmas the solver
-            does not find unprompted instantiated at them."""
+            does not find unprompted instantiated at them.  `override=(m, (qx, qy))` evaluates
+            the closed form with predicted node m moved to (qx, qy) (monotonicity lemma)."""
             scv = sc(g)
             terms, viss = [], []
             for n in range(N):
                 gx, gy, px, py = gt([g, n, 0]), gt([g, n, 1]), pr([p, n, 0]), pr([p, n, 1])
+                if override is not None and override[0] == n:
+                    px, py = override[1]
                 miss_gt = V.b_or(V.f_isnan(gx), V.f_isnan(gy))
                 miss_pr = V.b_or(V.f_isnan(px), V.f_isnan(py))
                 ax, ay = V.f_sub(gx, px), V.f_sub(gy, py)
@@ -168,6 +171,8 @@ class ComputeOks(Contract):
                 ks = V.f_exp(V.f_neg(V.f_div(dist, norm)))
                 terms.append(V.ite(miss_gt, 0.0, ks) if not isinstance(miss_gt, bool) else (0.0 if miss_gt else ks))
                 viss.append(T.cast_scalar(V.b_not(miss_gt), FLOAT))
+                if info is not None:
+                    info.append(dict(d2=d2, norm=norm, miss_pr=miss_pr, miss_gt=miss_gt))
             if c.symbolic:
                 if scale is None:
                     # bounding-box area of the visible gt nodes is non-negative
@@ -202,6 +207,45 @@ class ComputeOks(Contract):
             same = V.b_and(*[V.f_same(gt([g, n, k]), pr([p, n, k])) for n in range(N) for k in range(2)])
             return V.b_implies(V.b_and(has_vis(g), same), V.f_eq(val(g, p), 1.0))
 
+        def fold(xs):
+            tot = 0.0
+            for x in xs:
+                tot = V.f_add(tot, x)
+            return tot
+
+        def monotone(g, p):
+            """Moving one predicted keypoint (any node m, to any finite position q) farther from
+            its ground-truth target never increases the similarity: a lemma on the closed form
+            that post/value ties to the code, for all other coordinates and NaN patterns."""
+            if not c.symbolic:
+                return True
+            qx, qy = c.g["q"]
+            out = []
+            for m in range(N):
+                i0, i1 = [], []
+                t0, v0 = pieces(g, p, info=i0)
+                t1, v1 = pieces(g, p, override=(m, (qx, qy)), info=i1)
+                d0, d1, nm = i0[m]["d2"], i1[m]["d2"], i0[m]["norm"]
+                c.apply_lemma("quotient-antitone-in-numerator", 3,
+                              lambda a, b, k: V.b_implies(V.b_and(V.f_le(a, b), V.f_lt(0.0, k)), V.f_le(V.f_neg(V.f_div(b, k)), V.f_neg(V.f_div(a, k)))),
+                              [(R(d0), R(d1), R(nm))])
+
+                def agg2(*tv):
+                    a, b, vs = tv[:N], tv[N:2 * N], tv[2 * N:]
+                    nv = fold(vs)
+                    hyp = V.b_and(*([V.f_le(y, x) for x, y in zip(a, b)] + [V.f_lt(0.0, nv)]))
+                    qa = V.finite_real(V.sfloat(fold(a)).val / V.sfloat(nv).val)
+                    qb = V.finite_real(V.sfloat(fold(b)).val / V.sfloat(nv).val)
+                    return V.b_implies(hyp, V.f_le(qb, qa))
+
+                c.apply_lemma("mean-monotone-in-terms-%d" % N, 3 * N, agg2, [tuple(R(x) for x in t0 + t1 + v0)])
+                before = V.f_div(fold(t0), fold(v0))
+                after = V.f_div(fold(t1), fold(v1))
+                farther = V.b_and(V.b_not(i0[m]["miss_pr"]), V.f_le(d0, d1))
+                out.append(V.b_implies(V.b_and(has_vis(g), farther), V.f_le(after, before)))
+            return V.b_and(*out)
+
         out = [("PL/oks-in-[0,1]", Forall([G, P], rng)),
-               ("PL/identical-poses-score-1", Forall([G, P], identical))]
+               ("PL/identical-poses-score-1", Forall([G, P], identical)),
+               ("PL/oks-never-increases-when-a-predicted-keypoint-moves-farther", Forall([G, P], monotone))]
         return out
